@@ -13,7 +13,7 @@ func init() {
 		"(R1) the gRPC-code→HTTP-status decision table of toHTTPStatus equals the table in the property for every code, non-status errors give 500, the ErrorMapper is consulted first; "+
 		"(R2) every return of every (status, error) function of the front end (handlers and the functions that fetch a backend reply for them) is (200, nil) or (non-200, non-nil error) on all paths, and ServeHTTP rejects wrong methods / unparsable forms before calling the handler and converts (non-200, nil) into 500; "+
 		"(R3) for each endpoint and each cause named in the property (backend error, garbled root, tree too small, surplus or mis-indexed leaves, absent parts, bad proof hashes, undecodable leaf, parse failures) the control-flow edge taken on that cause can only reach returns of the prescribed status class with a non-nil error, and parse failures cannot reach a backend call; "+
-		"(R4) optional parts of backend replies are nil-guarded before every use that needs them present, whether the part is read by loading the field or through its nil-safe accessor (an accessor is recognised by what its body does, not by its name), and the absence of a part named in R3 is a cause of its own: when the part is read but no branch tests it for absence, the success return is reachable without it; (R5) no SCT is recorded on any fault edge of add-chain; (R6) SendHTTPError withholds the error text exactly when masking is on and the status is 500; checkAuditPath rejects wrong-sized hashes; (R7) a function without a status result that obtains an error from a backend RPC, or from a function on the way to one, hands on that very error value on every return that may execute once it is non-nil, so the gRPC status reaches toHTTPStatus. "+
+		"(R4) optional parts of backend replies are nil-guarded before every use that needs them present, whether the part is read by loading the field or through its nil-safe accessor (an accessor is recognised by what its body does, not by its name), and the absence of a part named in R3 is a cause of its own: when the part is read but no branch tests it for absence, the success return is reachable without it; (R5) no SCT is recorded on any fault edge of add-chain; (R6) SendHTTPError withholds the error text exactly when masking is on and the status is 500; checkAuditPath rejects wrong-sized hashes; (R7) a function without a status result that obtains an error from a backend RPC, or from a function on the way to one, hands on that very error value on every return that may execute once it is non-nil (results read through the result variables of a function with a deferred call, and through a cell of its own object the error was parked in), so the gRPC status reaches toHTTPStatus; an error such a function keeps in a cell for other callers to return is the backend's error unchanged; and the error of a context (ctx.Err(), context.Cause) is handed on by such a function — or given to toHTTPStatus — only as that context's gRPC status error (status.FromContextError(..).Err(), or status.Error with code Canceled / DeadlineExceeded), never bare or formatted into a new error: a caller whose own deadline passes while it waits is answered 504, not 500. "+
 		"NOT covered: panics from causes other than absent optional message parts, behaviour of net/http and gRPC, the dynamic values of statuses produced by an injected ErrorMapper.",
 		runC08)
 }
@@ -323,6 +323,7 @@ func runC08(r *Run) {
 	}
 
 	r.NilArgsRule("C08.R8", "trillian/ctfe", "trillian/util")
+	c06DumpObls(r)
 }
 
 // c08PartsReadFloor: distinct optional parts of backend replies read in package ctfe (confirmed by reading:
@@ -545,8 +546,9 @@ func c08StatusCarried(r *Run) {
 				continue
 			}
 			for _, ret := range Returns(fn) {
-				n := len(ret.Results)
-				if n > 0 && types.Identical(ret.Results[n-1].Type(), errT) && isBackendErr(ret.Results[n-1], 0) {
+				vs := RetVals(ret) // read through the result variables of a function with a deferred call
+				n := len(vs)
+				if n > 0 && types.Identical(vs[n-1].Type(), errT) && isBackendErr(vs[n-1], 0) {
 					carriers[fn] = true
 					changed = true
 				}
@@ -611,11 +613,12 @@ func c08StatusCarried(r *Run) {
 			continue // computes the status itself, next to the (possibly wrapped) error
 		}
 		for _, ret := range Returns(fn) {
-			k := len(ret.Results)
-			if k == 0 || !types.Identical(ret.Results[k-1].Type(), errT) {
+			vs := RetVals(ret)
+			k := len(vs)
+			if k == 0 || !types.Identical(vs[k-1].Type(), errT) {
 				continue
 			}
-			ev := ret.Results[k-1]
+			ev := vs[k-1]
 			if isBackendErr(ev, 0) {
 				n++
 				r.Funcs[FuncName(fn)] = true
@@ -726,14 +729,25 @@ func c08StatusCarried(r *Run) {
 					}
 				}
 			}
-			reach := r.D.Walk(fn, Sigma{"nil?" + r.D.D(tested): "non"}, call.Block(), nil)
+			// the error may be parked in a cell of an object this function created and be tested / returned from
+			// there: a load of that cell is the same value (c08ParkedLoads)
+			parked := c08ParkedLoads(r, fn, ev)
+			sigma := Sigma{"nil?" + r.D.D(tested): "non"}
+			for ld := range parked {
+				sigma["nil?"+r.D.D(ld)] = "non"
+			}
+			reach := r.D.Walk(fn, sigma, call.Block(), nil)
 			r.Valuations++
 			ok, detail, nret := true, "", 0
 			for _, ret := range reachableReturns(fn, reach) {
+				if ret.Block().Comment == "recover" {
+					continue
+				}
 				nret++
-				if k := len(ret.Results); k == 0 || !carriesVal(ret.Results[k-1], ev, 0) {
+				vs := RetVals(ret)
+				if k := len(vs); k == 0 || !carriesVal(vs[k-1], ev, 0) && !parked[vs[k-1]] {
 					ok = false
-					detail = fmt.Sprintf("once %s failed, the return at %s hands on %s instead of that error: its gRPC status (429/503/504/4xx) is lost and the request is answered 500", CalleeOf(call), r.Where(ret), r.D.D(ret.Results[len(ret.Results)-1]))
+					detail = fmt.Sprintf("once %s failed, the return at %s hands on %s instead of that error: its gRPC status (429/503/504/4xx) is lost and the request is answered 500", CalleeOf(call), r.Where(ret), r.D.D(vs[len(vs)-1]))
 				}
 			}
 			if ok && nret == 0 {
@@ -745,6 +759,10 @@ func c08StatusCarried(r *Run) {
 			r.Check(key, ok, r.Where(call), detail)
 		}
 	}
+	// an error kept for other callers is the backend's error unchanged; a context's error is handed on only as the
+	// gRPC status error of that context (rules_t8c06.go)
+	c08RelayCells(r, onWay, func(v ssa.Value) bool { return isBackendErr(v, 0) }, wraps)
+	c08ContextErrors(r, onWay)
 	// instance floors that do not depend on where helper boundaries lie: the exported getters on the way from the
 	// latest-root RPC to the get-sth handler, and (end to end) a handler that maps a relayed error, i.e. the error
 	// result of a relaying function rather than of an RPC it issues itself
